@@ -48,6 +48,9 @@ type symEnv struct {
 	// fork: a block that assigns to outer variables is translated with the rest of the statement list
 	// inlined under it (the rest must end in a return), and the rest is translated again for the other path
 	fork bool
+	// tuple: functions with several results: "return a, b" is the symbol "a , b"; "x, err := CALL; if err != nil
+	// { return nil, err }" is a guard; "a, b := CALL" binds CALL.0 and CALL.1
+	tuple bool
 	// tail: a recogniser for a final run of statements outside the language, rendered as one outcome
 	tail func(e *symEnv, rest []ast.Stmt) (string, bool)
 	val  map[string]string // variable -> symbolic expression
@@ -55,7 +58,7 @@ type symEnv struct {
 }
 
 func (e *symEnv) clone() *symEnv {
-	n := &symEnv{val: map[string]string{}, pred: map[string]string{}, inLoop: e.inLoop, fork: e.fork, tail: e.tail}
+	n := &symEnv{val: map[string]string{}, pred: map[string]string{}, inLoop: e.inLoop, fork: e.fork, tail: e.tail, tuple: e.tuple}
 	for k, v := range e.val {
 		n.val[k] = v
 	}
@@ -203,6 +206,13 @@ func (e *symEnv) bind(s *ast.AssignStmt) bool {
 }
 
 func (e *symEnv) ret(r *ast.ReturnStmt) (string, bool) {
+	if e.tuple && len(r.Results) >= 2 {
+		var rs []string
+		for _, x := range r.Results {
+			rs = append(rs, e.sym(x))
+		}
+		return "DVal " + qfull(strings.Join(rs, " , ")), true
+	}
 	if len(r.Results) == 1 {
 		// a function with one (boolean) result: the returned expression as a symbol
 		return "DVal " + qfull(e.sym(r.Results[0])), true
@@ -289,6 +299,31 @@ func (e *symEnv) stmts(list []ast.Stmt, where string) []string {
 					}
 				}
 			}
+			// tuple mode: x, err := CALL; if err != nil { return nil, err }
+			if e.tuple && len(s.Lhs) == 2 && len(s.Rhs) == 1 && src(s.Lhs[1]) == "err" && i+1 < len(list) && src(list[i+1]) == "if err != nil { return nil, err }" {
+				if c, ok := s.Rhs[0].(*ast.CallExpr); ok {
+					call := e.sym(c)
+					if x, ok := s.Lhs[0].(*ast.Ident); ok {
+						e.val[x.Name] = call
+					}
+					out = append(out, "DGuard "+qfull("fails("+call+")")+" false DErr")
+					i++
+					continue
+				}
+			}
+			// tuple mode: a, b := CALL
+			if e.tuple && len(s.Lhs) == 2 && len(s.Rhs) == 1 && s.Tok == token.DEFINE {
+				if c, ok := s.Rhs[0].(*ast.CallExpr); ok {
+					a, okA := s.Lhs[0].(*ast.Ident)
+					b2, okB := s.Lhs[1].(*ast.Ident)
+					if okA && okB {
+						call := e.sym(c)
+						e.val[a.Name] = call + ".0"
+						e.val[b2.Name] = call + ".1"
+						continue
+					}
+				}
+			}
 			// M[k] = v as the last statement of a loop body
 			if t, ok := e.mapSet(s); ok && e.inLoop && i == len(list)-1 {
 				out = append(out, "DRet ("+t+")")
@@ -349,6 +384,34 @@ func (e *symEnv) stmts(list []ast.Stmt, where string) []string {
 						continue
 					}
 					cs := conj(s.Cond)
+					// p1 && ... && (d1 || d2 ...): the last conjunct a disjunction
+					if last := disj(cs[len(cs)-1]); len(cs) > 1 && len(last) > 1 {
+						okAll := true
+						var gs []string
+						for _, d := range last {
+							l, ok := inner.literal(d)
+							if !ok {
+								okAll = false
+								break
+							}
+							gs = append(gs, fmt.Sprintf("DGuard %s %v (%s)", qfull(l.p), l.neg, r))
+						}
+						g := strings.Join(gs, "; ")
+						for k := len(cs) - 2; k >= 0 && okAll; k-- {
+							l, ok := inner.literal(cs[k])
+							if !ok {
+								okAll = false
+								break
+							}
+							g = fmt.Sprintf("DIf %s %v [%s]", qfull(l.p), l.neg, g)
+						}
+						if okAll {
+							out = append(out, g)
+							continue
+						}
+						unknown(s)
+						continue
+					}
 					good := true
 					var lits []lit
 					for _, c := range cs {
@@ -503,6 +566,19 @@ func restoreIdentProgram(f *ast.File) string {
 	return "[DUnknown \"missing\"]"
 }
 
+func tupleDecisionOf(f *ast.File, recv, name, where string) string {
+	for _, d := range f.Decls {
+		fd, ok := d.(*ast.FuncDecl)
+		if !ok || fd.Body == nil || fd.Name.Name != name || fd.Recv == nil || !strings.Contains(src(fd.Recv.List[0].Type), recv) {
+			continue
+		}
+		env := &symEnv{val: map[string]string{}, pred: map[string]string{}, tuple: true}
+		return "[" + strings.Join(env.stmts(fd.Body.List, where), ";\n   ") + "]"
+	}
+	noteUnknown(where, "function not found")
+	return "[DUnknown \"missing\"]"
+}
+
 func genDecisionSrc() {
 	var b strings.Builder
 	b.WriteString("(* GENERATED from /repo/decorator/resolver/{gotypes,goast}/resolver.go and decorator/decorator.go -- do not edit *)\nFrom Coq Require Import List String Bool.\nImport ListNotations.\nFrom DV Require Import Model.Decision.\nLocal Open Scope string_scope.\n\n")
@@ -528,6 +604,8 @@ func genDecisionSrc() {
 	fmt.Fprintf(&b, "Definition resolve_names_src : list dstmt :=\n  %s.\n\n", loopBodyOf(rf, "updateImports", "packagesInUseOrdered", 0, "restorer.go updateImports loops"))
 	// restoreIdent: which identifiers are restored as package.Name, under which name; the construction of
 	// the selector itself is one outcome (its statements are pinned)
-	fmt.Fprintf(&b, "Definition restoreident_src : list dstmt :=\n  %s.\n", restoreIdentProgram(rf))
+	fmt.Fprintf(&b, "Definition restoreident_src : list dstmt :=\n  %s.\n\n", restoreIdentProgram(rf))
+	// Decorator.ParseFile: which error is reported when the parser and the decorator both fail
+	fmt.Fprintf(&b, "Definition parsefile_src : list dstmt :=\n  %s.\n", tupleDecisionOf(df, "Decorator", "ParseFile", "decorator.go Decorator.ParseFile"))
 	writeIfChanged("DecisionSrc.v", b.String())
 }
